@@ -27,6 +27,8 @@ type crossCase struct {
 	Lib *fg.Flow `json:"library_flow,omitempty"`
 	ReqHdr  map[string]string `json:"request_headers"`
 	RespHdr map[string]string `json:"response_headers"`
+	// Fan: number of further connections that leave "flow Guard at end" in the host's request direction
+	Fan int `json:"fan_out_behind_the_reference,omitempty"`
 }
 
 func pEnd(key, cond string) fg.End { return fg.End{Proc: key, Cond: cond} }
@@ -115,6 +117,19 @@ func genCross() *rapid.Generator[crossCase] {
 			aExits = append(aExits, g)
 		}
 		c.A.Req = genSide(t, "areq", ak, fg.End{Flow: "Guard", At: "end"}, aExits, ga)
+		// a fan-out directly behind the flow reference: a second connection leaves "flow Guard at end" for a
+		// processor of its own, which runs after the first branch (only without an answering processor in the
+		// host: what a fan-out means around an answer is not fixed by the statement)
+		if ga == nil && rapid.IntRange(0, 2).Draw(t, "fan-behind-ref") == 0 {
+			n := rapid.IntRange(1, 2).Draw(t, "nfan")
+			for i := 0; i < n; i++ {
+				k := fmt.Sprintf("T%d", i)
+				c.A.Procs = append(c.A.Procs, filt(k))
+				c.A.Req = append(c.A.Req, fg.Conn{From: fg.End{Flow: "Guard", At: "end"}, To: fg.End{Proc: k}},
+					fg.Conn{From: pEnd(k, "hit"), To: fg.StreamEnd()}, fg.Conn{From: pEnd(k, "miss"), To: fg.StreamEnd()})
+			}
+			c.Fan = n
+		}
 		if rapid.IntRange(0, 2).Draw(t, "lib") == 0 {
 			lib := fg.Flow{Name: "Lib", URL: "h.com/lib-only", Procs: []fg.Proc{{Key: "K0", Kind: "F", Arg: "x-klib"}},
 				Req:  []fg.Conn{{From: fg.StreamStart(), To: fg.End{Proc: "K0"}}, {From: pEnd("K0", "hit"), To: fg.StreamEnd()}, {From: pEnd("K0", "miss"), To: fg.StreamEnd()}},
@@ -238,9 +253,13 @@ func (w *crossWalker) run(at fg.End, ownerIsX bool, request bool) {
 			at = w.next(p.Key, out, request)
 		case at.Stream == "end":
 			if request && ownerIsX {
-				// the guard is finished: the host's own processors follow
-				at, ownerIsX = entryOf(w.c.A.Req, fg.End{Flow: "Guard", At: "end"}), false
-				continue
+				// the guard is finished: the host's own processors follow - every connection that leaves
+				// "flow Guard at end", in the order they are written
+				for _, cn := range w.c.A.Req {
+					if cn.From == (fg.End{Flow: "Guard", At: "end"}) && w.answered == "" {
+						w.run(cn.To, false, true)
+					}
+				}
 			}
 			return
 		case at.Flow != "":
@@ -307,6 +326,9 @@ func runCross(r *ev.Recorder, rec *engine.Recorder, c crossCase) (nontrivial boo
 	nontrivial = crossed || w.answered != ""
 	if crossed {
 		r.Class("request path crosses from the referenced flow into the host flow")
+		if c.Fan > 0 {
+			r.Class("request path crosses into a host flow that fans out directly behind the reference")
+		}
 	}
 	if strings.Join(got, " ") != strings.Join(w.events, " ") {
 		return nontrivial, fmt.Errorf("request walk differs from the configured graphs: executed [%s], expected [%s]", strings.Join(got, " "), strings.Join(w.events, " "))
